@@ -71,6 +71,8 @@ def observe(env, progs, target="native", workers=12):
                 ob.update(status="void", msg=msgs[0][:100])
             else:
                 ob.update(status="rejected", msg=norm_msg(o), msgs=msgs[:3])
+        elif r["cls"] == "TRAP" and target == "wasm":      # the wasm back end's way of stopping abnormally
+            ob.update(status="ran", out=r["out"].split("\n")[:-1] if r["out"] else [], halt="panic", err=r["err"][:200], trap=True)
         elif r["cls"] not in ("EXIT0", "PANIC"):
             ob.update(status="badrun", msg="%s %s" % (r["cls"], r["err"][:80]), out=r["out"].split("\n")[:-1], halt=r["cls"])
         else:
@@ -80,14 +82,30 @@ def observe(env, progs, target="native", workers=12):
     return obs
 
 
-def judge(env, obs):
-    """Adds 'verdict' ({ok, out, halt}) to every observation that ran; returns interpreter errors."""
-    cases = [{"id": i, "prog": ob["prog"], "out": ob["out"], "halt": ob["halt"]} for i, ob in enumerate(obs) if ob["status"] == "ran"]
+def judge(env, obs, second=None):
+    """Adds 'verdict' ({ok, out, halt, ok2, agree}) to every observation that ran; returns interpreter errors.
+    second: observations of the same programs on the other back end (C02); judged together where both ran."""
+    cases = []
+    for i, ob in enumerate(obs):
+        if ob["status"] != "ran":
+            continue
+        c = {"id": i, "prog": ob["prog"], "out": ob["out"], "halt": ob["halt"]}
+        if second is not None:
+            if second[i]["status"] != "ran":
+                continue
+            c.update(out2=second[i]["out"], halt2=second[i]["halt"])
+        cases.append(c)
     verdicts, errors = sem.judge(env, cases)
     for i, ob in enumerate(obs):
         if ob["status"] == "ran":
             ob["verdict"] = verdicts.get(i)
     return errors
+
+
+def uses_wide(prog):
+    import json
+    t = json.dumps(prog)
+    return '"b": 128' in t or '"b": 256' in t or "128" in json.dumps(prog.get("types", [])) or "256" in json.dumps(prog.get("types", []))
 
 
 def first_diff(got, want, ghalt, whalt):
